@@ -25,6 +25,17 @@ CLAIMS["C07"] = dict(
    note=TRUST + ". Assumed, not proved: bbolt restores the database when the update function returns an error and runs OnCommit callbacks only after a successful commit (that is the whole 'left exactly as before' half); error holders latch (no code resets ErrorHolderImpl.Err); panic-freedom of these functions is not claimed here.",
    technique="contract-based deductive verification: ghost error-flow protocol + postconditions, VCs over go/ssa, SMT")
 
+CLAIMS["C16"] = dict(
+   text="Proof obligations over the real code: systemEntityConstraint.checkOperation returns an error exactly when the stored system flag of the row is true and the mutate context is not the system wrapper; ProcessBeforeUpdate (non-create), ProcessAfterUpdate (create) and ProcessBeforeDelete record that veto in the operation's error holder and nothing else does; IsSystemContext is true exactly for *systemMutateContext (proved for both implementations); NewSystemMutateContext/GetSystemContext return a system context. With C07's error-flow obligations a vetoed operation fails and rolls back.",
+   design="5/C16",
+   note=TRUST + ". Assumed: the store registers the constraint and the entity strategy calls SetBaseValues; that an update never rewrites the stored flag is argued from UpdateBaseValues writing only updatedAt/tags (covered by the C13 setter frames when those are under contract).",
+   technique="contract-based deductive verification: iff-postconditions + interface-level contract with impl obligations, SMT")
+CLAIMS["C20"] = dict(
+   text="For every struct type of package ast that implements Node (enumerated from go/types on every run; a type or child field without a contract fails the check) the Accept method is proved to invoke Accept with the same visitor on every non-nil child field (loop invariants for slice fields) and symbol nodes are proved to report their name through VisitSymbol; publicSymbolValidator.VisitSymbol is proved to latch an error exactly when a non-public symbol is seen; BaseStore.IsPublicSymbol is proved to be 'in publicSymbols, or element of a public map symbol'; ValidateSymbolsArePublic visits the query and returns the validator's error.",
+   design="5/C20",
+   note=TRUST + ". The whole-tree statement is the structural induction whose step is each Accept postcondition (not mechanised); visitors are assumed not to modify the AST; strings.Split is a trusted contract.",
+   technique="contract-based deductive verification: ghost visited/symSeen sets, per-type Accept postconditions, go/types enumeration for completeness")
+
 NA = {
 }
 
